@@ -195,11 +195,15 @@ func init() {
 		Opts: []HarnessOpt{
 			{Prefix: "VH_C03_", Mode: "G", Merge: geomMerge, IfConv: true, MaxUnwind: 16},
 			{Prefix: "VH_C03_centroid", Mode: "R", Merge: geomMerge, IfConv: true, MaxUnwind: 16},
+			{Prefix: "VH_C03_area", Mode: "R", Merge: geomMerge, IfConv: true, MaxUnwind: 16},
+			{Prefix: "VH_C03_lemma", Mode: "R", IfConv: true},
+			{Prefix: "VH_C03_area_with_hole", Mode: "G", Merge: geomMerge, IfConv: true, MaxUnwind: 16, ThoroughOnly: true, TimeoutMs: 300_000},
+			{Prefix: "VH_C03_centroid_with_hole", Mode: "R", Merge: geomMerge, IfConv: true, MaxUnwind: 16, ThoroughOnly: true, TimeoutMs: 300_000},
 			{Prefix: "VH_C03_length", Mode: "F"},
 			{Prefix: "VH_C03_buffer", Mode: "F"},
 		},
 		Bounds: map[string]string{
-			"area":     "triangular shells of either winding, any rotation, closed or unclosed; one triangular hole strictly inside; two disjoint members; integer grid of 4 (5) signed bits: Area compared exactly",
+			"area":     "triangular shells of either winding, any rotation, closed or unclosed; one triangular hole strictly inside; two disjoint members; integer grid of 4 (5) signed bits; the equality Area == |shell| - |hole| is decided as an identity in real arithmetic (every operation involved is exact in float64 on this grid)",
 			"centroid": "closed triangles, with one hole of opposite winding; real arithmetic (every float operation exact), result compared as a polynomial identity",
 			"length":   "<=5 vertices, all doubles: Length/Buffer compared as terms with libm functions uninterpreted",
 			"distance": "<=4 vertices on the 3-bit grid",
